@@ -873,6 +873,76 @@ def validation_before_imports(index: RepoIndex, rep, rule: str) -> None:
                       f'convert reserved keys in the user\'s configuration data, and a second '
                       f'build from the same data fails')
     rep.holds(rule, f'{rel}:<module>:Const', f'{len(consts)} pass-through container schemas')
+    # the lists of object types, actions and colours are rejected when an element repeats:
+    # their schema reaches the uniqueness predicate (`len(set(d)) == len(d)`), directly or
+    # through a helper called with arguments under which it adds that predicate
+    from ..guards import strip_iter, truth_under
+
+    def is_unique_pred(n) -> bool:
+        if isinstance(n, ast.Lambda) and isinstance(n.body, ast.Compare) and \
+                len(n.body.ops) == 1 and isinstance(n.body.ops[0], ast.Eq):
+            t = {src(n.body.left).replace(' ', ''), src(n.body.comparators[0]).replace(' ', '')}
+            a = n.args.args[0].arg if n.args.args else ''
+            return t == {f'len(set({a}))', f'len({a})'}
+        return False
+    uniq_fns = {fn_.name for fn_ in mod.functions.values()
+                if any(is_unique_pred(n) for n in ast.walk(fn_.node))}
+
+    def reaches_unique(e: ast.AST, depth: int = 3):
+        """True / False / None (undecided)"""
+        for n in ast.walk(e):
+            if is_unique_pred(n) or (isinstance(n, ast.Call) and isinstance(n.func, ast.Name)
+                                     and n.func.id in uniq_fns):
+                return True
+        verdict = False
+        for n in ast.walk(e):
+            if isinstance(n, ast.Call) and isinstance(n.func, ast.Name) and \
+                    n.func.id in mod.functions and n.func.id not in uniq_fns and depth > 0:
+                h = mod.functions[n.func.id]
+                names = [a.arg for a in h.node.args.args + h.node.args.kwonlyargs]
+                bound = dict(zip([a.arg for a in h.node.args.args], n.args))
+                bound.update({k.arg: k.value for k in n.keywords if k.arg})
+                for p_, d_ in h.param_defaults().items():
+                    bound.setdefault(p_, d_)
+                hw = walk_function(h.node)
+
+                def at(a_):
+                    if isinstance(a_, ast.Name) and a_.id in bound and \
+                            isinstance(bound[a_.id], ast.Constant):
+                        return bool(bound[a_.id].value)
+                    return None
+                for ev_ in hw.events:
+                    if ev_.kind == 'call' and (
+                            (isinstance(ev_.node.func, ast.Name) and ev_.node.func.id in uniq_fns)
+                            or any(is_unique_pred(x) for x in ast.walk(ev_.node))):
+                        t_ = truth_under(strip_iter(ev_.guard), at)
+                        if t_ is True:
+                            return True
+                        if t_ is None:
+                            verdict = None
+                _ = names
+        return verdict
+    tables = [n for n in ast.walk(mod.tree) if isinstance(n, ast.Dict) and any(
+        isinstance(k, ast.Constant) and k.value == 'colors' for k in n.keys)]
+    seen_keys = set()
+    for tb in tables:
+        for k, v in zip(tb.keys, tb.values):
+            if isinstance(k, ast.Constant) and k.value in ('object_types', 'actions', 'colors') \
+                    and not isinstance(v, ast.Subscript):
+                seen_keys.add(k.value)
+                r_ = reaches_unique(v)
+                if r_ is None:
+                    rep.undecided(rule, f'{rel}:<module>:{k.value}',
+                                  'uniqueness of the list not decided')
+                else:
+                    rep.check(r_, rule, rel, '<module>', v.lineno, f'{k.value}: {src(v)[:80]}',
+                              f'the `{k.value}` schema does not require its elements to be '
+                              f'different: a list that names the same element twice is accepted '
+                              f'(and silently collapsed, or numbered twice) instead of being '
+                              f'rejected as malformed', f'{k.value} unique')
+    if seen_keys != {'object_types', 'actions', 'colors'}:
+        raise AnalysisError(f'schemas: list schemas {sorted(seen_keys)} found, expected '
+                            f'object_types, actions, colors')
     # the premise: validation comes first in the entry point
     fe = index.func('gym_gridverse/envs/yaml/factory.py', 'factory_env_from_data')
     w = walk_function(fe.node)
